@@ -19,6 +19,7 @@ C04-F3 C04 8902ad6
 C06-F1 C06 ee1bd9e
 C07-F1 C07 0fddc27 b736e3e
 C14-F1 C14 df8caca
+C14-F2 C14 f8c3f4a
 C12-F1 C12 2cd1e3c
 C12-F2 C12 f8390fd
 C11-F1 C11 4d06c22
